@@ -43,6 +43,9 @@ def _write_all(fd, data):
         view = view[n:]
 
 
+MEM_LIMIT = 4 << 30
+
+
 def fork_call(fn, timeout=120.0):
     """Run fn() in a forked child; returns ('ok', obj) | ('watchdog', None) | ('died', info)."""
     r, w = os.pipe()
@@ -60,6 +63,13 @@ def fork_call(fn, timeout=120.0):
             except Exception:
                 pass
             gc.disable()
+            try:
+                # an evaluation that asks for gigabytes (1 to 2147483648) fails at once with MemoryError instead of
+                # driving the machine into the OOM killer
+                import resource
+                resource.setrlimit(resource.RLIMIT_AS, (MEM_LIMIT, MEM_LIMIT))
+            except Exception:
+                pass
             try:
                 out = fn()
                 data = json.dumps(out, default=str).encode()
